@@ -1,9 +1,9 @@
 """C05.h  get_children / get_children_of_type decided by evaluation (sa/pyeval.py) on a sample object tree
 
       R { kids+=[A1{inner=C1} A2]  one=B1  ref=[A2] (a reference, not contained)  frozen+=(X1, X2) (a user class froze the
-          list into a tuple)  opt=None  empty=[]  text='t' (a base-type value) }
+          list into a tuple)  opt=None  empty=[]  text='t' (a base-type value)  mixed*=['a value' 7 X3] }
 
-   parents first:  R A1 C1 A2 B1 X1 X2      children first:  C1 A1 A2 B1 X1 X2 R      (containment order, attributes in
+   parents first:  R A1 C1 A2 B1 X1 X2 X3      children first:  C1 A1 A2 B1 X1 X2 X3 R      (containment order, attributes in
    declaration order, every object once, references and base-type values not followed, should_follow prunes a subtree,
    the selector only filters)"""
 import ast
@@ -23,16 +23,20 @@ def r_C05children(root):
     if None in (ONE, OPT, MANY, SOME): raise AnalysisError("const.py: multiplicity constants not found")
     def attr(name, mult, cont=True): return HS({".kind": "metaattr", ".name": name, ".mult": mult, ".cont": cont, ".ref": not cont})
     def mcls(name, attrs): return pyeval.ClassObj(name, {"__name__": name, "_tx_attrs": {a[".name"]: a for a in attrs}, "_tx_fqn": name})
-    cR = mcls("R", [attr("kids", SOME), attr("one", ONE), attr("ref", ONE, cont=False), attr("frozen", MANY), attr("opt", OPT), attr("empty", MANY), attr("text", ONE)])
+    cR = mcls("R", [attr("kids", SOME), attr("one", ONE), attr("ref", ONE, cont=False), attr("frozen", MANY), attr("opt", OPT), attr("empty", MANY), attr("text", ONE), attr("mixed", MANY)])
     cA = mcls("A", [attr("inner", OPT)]); cB = mcls("B", []); cC = mcls("C", []); cX = mcls("X", [])
     def obj(c, tag, **kw): o = pyeval.InstObj(c); o.own.update(kw); o.own["tag"] = tag; return o
-    C1 = obj(cC, "C1"); A1 = obj(cA, "A1", inner=C1); A2 = obj(cA, "A2", inner=None); B1 = obj(cB, "B1"); X1 = obj(cX, "X1"); X2 = obj(cX, "X2")
-    R = obj(cR, "R", kids=[A1, A2], one=B1, ref=A2, frozen=(X1, X2), opt=None, empty=[], text="t")
+    C1 = obj(cC, "C1"); A1 = obj(cA, "A1", inner=C1); A2 = obj(cA, "A2", inner=None); B1 = obj(cB, "B1"); X1 = obj(cX, "X1"); X2 = obj(cX, "X2"); X3 = obj(cX, "X3")
+    R = obj(cR, "R", kids=[A1, A2], one=B1, ref=A2, frozen=(X1, X2), opt=None, empty=[], text="t", mixed=["a value", 7, X3])          # mixed: a list typed by an abstract rule of base types and objects
     fns = {k: v for k, v in helper_functions(root, M, "get_children").items() if k not in ("get_children_of_type",)}
     fns["get_children"] = gc
     def run(fn, **args):
         ps = [a.arg for a in fn.args.args]
         env = dict(consts); env.update({"__functions__": fns, "__module__": t, "__maxdepth__": 40})
+        for st_ in load(root, "textx/lang.py").body:          # constants of lang.py a rewritten walker may consult
+            if isinstance(st_, ast.Assign) and len(st_.targets) == 1 and isinstance(st_.targets[0], ast.Name) and st_.targets[0].id in ("PRIMITIVE_PYTHON_TYPES",):
+                try: env[st_.targets[0].id] = pyeval.evaluate(st_.value, {})
+                except (pyeval.Unsupported, pyeval.Raised): pass
         dflt = dict(zip(ps[len(ps) - len(fn.args.defaults):], fn.args.defaults))
         for k_, d_ in dflt.items(): env[k_] = pyeval.evaluate(d_, dict(env))
         env.update(args)
@@ -43,11 +47,11 @@ def r_C05children(root):
         except pyeval.Unsupported as u_: raise AnalysisError("%s: outside the evaluated subset: %s" % (fn.name, u_))
     def tags(v): return [x.own.get("tag") if isinstance(x, pyeval.InstObj) else repr(x) for x in v] if isinstance(v, list) else v
     every = pyeval.PyFn(lambda o: True)
-    CASES = [("every object, parents first", dict(selector=every, root=R), ["R", "A1", "C1", "A2", "B1", "X1", "X2"]),
-             ("every object, children first", dict(selector=every, root=R, children_first=True), ["C1", "A1", "A2", "B1", "X1", "X2", "R"]),
+    CASES = [("every object, parents first", dict(selector=every, root=R), ["R", "A1", "C1", "A2", "B1", "X1", "X2", "X3"]),
+             ("every object, children first", dict(selector=every, root=R, children_first=True), ["C1", "A1", "A2", "B1", "X1", "X2", "X3", "R"]),
              ("objects of class A", dict(selector=pyeval.PyFn(lambda o: o.cls is cA), root=R), ["A1", "A2"]),
-             ("the selector rejects the root and A1", dict(selector=pyeval.PyFn(lambda o: o.own.get("tag") not in ("R", "A1")), root=R), ["C1", "A2", "B1", "X1", "X2"]),
-             ("should_follow prunes A1 and its subtree", dict(selector=every, root=R, should_follow=pyeval.PyFn(lambda o: not (isinstance(o, pyeval.InstObj) and o.own.get("tag") == "A1"))), ["R", "A2", "B1", "X1", "X2"]),
+             ("the selector rejects the root and A1", dict(selector=pyeval.PyFn(lambda o: o.own.get("tag") not in ("R", "A1")), root=R), ["C1", "A2", "B1", "X1", "X2", "X3"]),
+             ("should_follow prunes A1 and its subtree", dict(selector=every, root=R, should_follow=pyeval.PyFn(lambda o: not (isinstance(o, pyeval.InstObj) and o.own.get("tag") == "A1"))), ["R", "A2", "B1", "X1", "X2", "X3"]),
              ("search below A1", dict(selector=every, root=A1), ["A1", "C1"]),
              ("a leaf", dict(selector=every, root=C1), ["C1"])]
     for what, args, want in CASES:
@@ -56,7 +60,7 @@ def r_C05children(root):
         okc = k == "ret" and tags(v) == want
         ob("C05", "C05.h", M, "get_children", what, okc)
         if not okc: out.append(Finding("C05", "C05.h", M, "get_children", what, "get_children (%s) on the sample tree %s; documented %s (containment order, every contained object once - also the elements a user class keeps in a tuple -, references and base-type values not followed)" % (what, "gives %s" % tags(v) if k == "ret" else "raises %s" % v.cls, want)))
-    for what, args, want in (("by class name", dict(typ="A", root=R), ["A1", "A2"]), ("by class", dict(typ=cX, root=R), ["X1", "X2"]), ("children first", dict(typ="C", root=R, children_first=True), ["C1"]), ("a class without objects", dict(typ="Nope", root=R), [])):
+    for what, args, want in (("by class name", dict(typ="A", root=R), ["A1", "A2"]), ("by class", dict(typ=cX, root=R), ["X1", "X2", "X3"]), ("children first", dict(typ="C", root=R, children_first=True), ["C1"]), ("a class without objects", dict(typ="Nope", root=R), [])):
         inst += 1
         k, v = run(gt, **args)
         okc = k == "ret" and tags(v) == want
